@@ -218,6 +218,85 @@ fn run(sc: &Sc) -> Vec<Fail> {
     fails
 }
 
+// ---- sequences of requests: what is queued is yielded by (deadline, origin), and in request order among equal keys (C07)
+fn issue(sched: &GlobalScheduler, sender: &Sender<Rec>, addr: &Address<Rec>, req: Req, dl: Dl, origin: usize, arg: u32) -> Result<(), SchedulingError> {
+    let period = Duration::from_secs(2);
+    macro_rules! go {
+        ($dl:expr) => {{
+            let dl = $dl;
+            match req {
+                Req::PrebuiltOnce => {
+                    let s = sender.clone();
+                    sched.schedule_from(dl, Action::new(OnceAction::new(process_event(handler, arg, s))), origin)
+                }
+                Req::PrebuiltKeyedOnce => {
+                    let s = sender.clone();
+                    sched.schedule_from(dl, Action::new(KeyedOnceAction::new(move |ek| send_keyed_event(ek, handler, arg, s), ActionKey::new())), origin)
+                }
+                Req::PrebuiltPeriodic => {
+                    let s = sender.clone();
+                    sched.schedule_from(dl, Action::new(PeriodicAction::new(move || process_event(handler, arg, s), period)), origin)
+                }
+                Req::PrebuiltKeyedPeriodic => {
+                    let s = sender.clone();
+                    sched.schedule_from(dl, Action::new(KeyedPeriodicAction::new(move |ek| send_keyed_event(ek, handler, arg, s), period, ActionKey::new())), origin)
+                }
+                Req::Event => sched.schedule_event_from(dl, handler, arg, addr, origin),
+                Req::KeyedEvent => sched.schedule_keyed_event_from(dl, handler, arg, addr, origin).map(|_| ()),
+                Req::PeriodicEvent => sched.schedule_periodic_event_from(dl, period, handler, arg, addr, origin),
+                Req::KeyedPeriodicEvent => sched.schedule_keyed_periodic_event_from(dl, period, handler, arg, addr, origin).map(|_| ()),
+            }
+        }};
+    }
+    match dl {
+        Dl::Rel(d) => go!(Duration::from_secs(d)),
+        Dl::Abs(t) => go!(MonotonicTime(t)),
+    }
+}
+fn run_seq(now: u64, reqs: &[(Req, Dl, usize)]) -> Vec<Fail> {
+    FUEL.store(0, Ordering::Relaxed);
+    let mut fails: Vec<Fail> = Vec::new();
+    let queue: Arc<Mutex<SchedulerQueue>> = Arc::new(Mutex::new(PriorityQueue::new()));
+    let sched = GlobalScheduler::new(queue.clone(), AtomicTimeReader(Arc::new(AtomicU64::new(now))));
+    let sender = Sender::new(Rec { log: Vec::new() });
+    let addr = Address(sender.clone());
+    let mut want: Vec<(u64, usize, usize, u32)> = Vec::new(); // (deadline, origin, request number, payload)
+    for (k, (req, dl, origin)) in reqs.iter().enumerate() {
+        let t = match dl {
+            Dl::Rel(d) => now + d,
+            Dl::Abs(t) => *t,
+        };
+        let r = issue(&sched, &sender, &addr, *req, *dl, *origin, 100 + k as u32);
+        if r.is_ok() != (t > now) {
+            fails.push(("accepted-iff-future-deadline-and-non-zero-period", "C08", format!("request #{} ({:?}, deadline {}) was {}", k, req, t, if r.is_ok() { "accepted" } else { "rejected" })));
+            return fails;
+        }
+        if r.is_ok() {
+            want.push((t, *origin, k, 100 + k as u32));
+        }
+    }
+    want.sort(); // by (deadline, origin), then request order
+    // pull everything, deliver it, and compare the order in which the model sees the payloads
+    loop {
+        burn();
+        let e = queue.lock().unwrap().pull();
+        match e {
+            Some((_, action)) => {
+                block_on(action.into_future());
+            }
+            None => break,
+        }
+    }
+    let got = sender.with(|m| m.log.clone());
+    let exp: Vec<u32> = want.iter().map(|w| w.3).collect();
+    if got != exp {
+        fails.push(("queued-requests-yielded-by-deadline-origin-then-request-order", "C07,C08",
+            format!("payloads delivered in queue order: {:?}; expected {:?} (payload 100+k belongs to request #k; keys (deadline, origin): {:?})", got, exp,
+                want.iter().map(|w| (w.0, w.1)).collect::<Vec<_>>())));
+    }
+    fails
+}
+
 fn main() {
     let _thorough = std::env::args().any(|a| a == "--thorough");
     panic::set_hook(Box::new(|_| {}));
@@ -258,10 +337,42 @@ fn main() {
             }
         }
     }
+    // sequences of two (thorough: three) requests
+    let dls = [Dl::Rel(1), Dl::Rel(3), Dl::Abs(6), Dl::Rel(0)];
+    let seq_len = if _thorough { 3 } else { 2 };
+    let mut idx = vec![0usize; seq_len];
+    let opts: Vec<(Req, Dl, usize)> = reqs.iter().flat_map(|r| dls.iter().flat_map(move |d| [0usize, 7].into_iter().map(move |o| (*r, *d, o)))).collect();
+    loop {
+        let seq: Vec<(Req, Dl, usize)> = idx.iter().map(|i| opts[*i]).collect();
+        for now in [0u64, 5] {
+            total += 1;
+            let r = panic::catch_unwind(|| run_seq(now, &seq));
+            let fl = match r {
+                Ok(x) => x,
+                Err(_) => vec![("request-panicked-or-did-not-return", "C08", "a request of the sequence panicked or ran out of fuel".to_string())],
+            };
+            for (check, props, detail) in fl {
+                *counts.entry(check).or_insert(0) += 1;
+                first.entry(check).or_insert((props.to_string(), format!("{{\"now\":{},\"requests\":\"{:?}\"}}", now, seq), detail));
+            }
+        }
+        let mut i = 0;
+        while i < seq_len {
+            idx[i] += 1;
+            if idx[i] < opts.len() {
+                break;
+            }
+            idx[i] = 0;
+            i += 1;
+        }
+        if i == seq_len {
+            break;
+        }
+    }
     let fs: Vec<String> = first
         .iter()
         .map(|(k, (props, sc, detail))| format!("{{\"check\":\"{}\",\"props\":\"{}\",\"count\":{},\"scenario\":{},\"detail\":{:?}}}", k, props, counts[k], sc, detail))
         .collect();
-    println!("{{\"scenarios\":{},\"samples\":[{}],\"bound\":\"one request per scenario: 8 request forms (Scheduler::schedule with each of the 4 action kinds built beforehand; the 4 schedule_*_event forms) x now in {{0,5}} x empty / one-entry queue x 7 deadlines (relative 0,1,3; absolute now-1, now, now+1, now+4) x periods {{0,1,2}} x 2 origins x 4 follow-ups (deliver, spawn, cancel while queued, cancel after hand-off)\",\"failures\":[{}]}}",
+    println!("{{\"scenarios\":{},\"samples\":[{}],\"bound\":\"one request per scenario: 8 request forms (Scheduler::schedule with each of the 4 action kinds built beforehand; the 4 schedule_*_event forms) x now in {{0,5}} x empty / one-entry queue x 7 deadlines (relative 0,1,3; absolute now-1, now, now+1, now+4) x periods {{0,1,2}} x 2 origins x 4 follow-ups (deliver, spawn, cancel while queued, cancel after hand-off); then every sequence of two (thorough: three) requests over 8 forms x 4 deadlines x 2 origins, drained and delivered\",\"failures\":[{}]}}",
         total, samples.join(","), fs.join(","));
 }
